@@ -62,6 +62,16 @@ TrNew ==
   /\ obj' = Put(obj, Ev.id, NewFI(Ev.lgmax))
   /\ gh' = Put(gh, Ev.id, [truth |-> <<>>, w |-> 0, uni |-> TRUE])
 
+\* a sketch decoded from an empty image: nothing tracked, the map size the image states (a writer may
+\* start from a map larger than the minimum), and written back as the same image
+FromEmpty(lgmax, lgcur) ==
+  [NewFI(lgmax) EXCEPT !.lgCur = lgcur, !.m = EmptyMap(lgcur), !.curCap = CapOf(lgcur)]
+TrFrom ==
+  /\ IsEv("FFrom")
+  /\ obj' = Put(obj, Ev.id, FromEmpty(Ev.lgmax, Ev.lgcur))
+  /\ gh' = Put(gh, Ev.id, [truth |-> <<>>, w |-> 0, uni |-> TRUE])
+  /\ (On("C13") \/ On("C11") \/ On("C07")) => (Sc(obj'[Ev.id]) = Ev.st /\ Ev.same /\ Ev.empty)
+
 TrUpd ==
   /\ IsEv("FUpd")
   /\ obj' = [obj EXCEPT ![Ev.id] = Update(@, X(Ev.x), Ev.w)]
@@ -132,7 +142,7 @@ TrRT ==
 
 TrPanic == IsEv("Panic") /\ FALSE /\ UNCHANGED <<obj, gh>>
 
-TNext == TrRun \/ TrNew \/ TrUpd \/ TrMerge \/ TrReset \/ TrChk \/ TrRT \/ TrPanic
+TNext == TrRun \/ TrNew \/ TrFrom \/ TrUpd \/ TrMerge \/ TrReset \/ TrChk \/ TrRT \/ TrPanic
 TSpec == TInit /\ [][TNext]_tvars
 
 Accepted ==
